@@ -742,6 +742,7 @@ async fn run_shape(shape: &Value) -> Value {
     for k in 0..8 {
         let off = match s(base, "off").as_str() {
             "alt" => if k % 2 == 0 { "sec".to_string() } else { "secneg".to_string() },
+            "jit" => if k % 2 == 0 { "jitpos".to_string() } else { "jitneg".to_string() },
             x => x.to_string(),
         };
         plan.push((off, s(base, "delay"), s(base, "gap"), "zero".to_string()));
@@ -789,6 +790,9 @@ async fn run_shape(shape: &Value) -> Value {
             "msneg" => -ms,
             "sec" => UNIT,
             "secneg" => -UNIT,
+            // +-20 microseconds of jitter around zero (constant-delay, low-noise links)
+            "jitpos" | "jit" => UNIT / 50_000,
+            "jitneg" => -(UNIT / 50_000),
             "maxpos" => BIG,
             _ => -BIG,
         };
@@ -797,6 +801,12 @@ async fn run_shape(shape: &Value) -> Value {
             "zero" => 0,
             "min" => 1 << 14,
             "ms" => ms,
+            // further constant delays (a filter fed identical delays must not produce a negative variance)
+            "ms3" => 3 * ms,
+            "ms7" => 7 * ms,
+            "ms10" => 10 * ms,
+            "ms33" => 33 * ms,
+            "ms100" => 100 * ms,
             "big" => 16 * UNIT,
             _ => BIG,
         };
